@@ -269,6 +269,8 @@ func runC09(c *Ctx) {
 	c.rule("A4", "safeio: raw stream parameters are used only through the contextual wrappers", 5)
 	c.rule("A5", "ReadFileContent: 'too large' refusal precedes the read when limits apply and Stat succeeded; the read is bounded by the same maximum", 1)
 	c.rule("A7", "after a context-carrying step has failed, no further mutating effect happens unless the failure was first found not to be a cancellation/timeout, or the context is consulted again", 1)
+	c.rule("A8", "a copy of n bytes: the count n reaches io.CopyN (which reports a short source as EOF), or the number of bytes transferred is compared with n before success is reported", 1)
+	c.rule("A9", "a bounded read: the raw source is read only through io.LimitReader(src, max), except on the side of the branch where max is negative (no bound requested)", 1)
 	c.rule("A6", "no context.Background()/TODO() inside a context-carrying function outside deferred clean-up", 60)
 
 	s := &c09State{c: c, eff: c.computeEffects(), gateFirst: map[*ssa.Function]bool{}}
@@ -328,6 +330,8 @@ func runC09(c *Ctx) {
 	s.streams()
 	s.sizeRefusal()
 	s.freshContexts()
+	s.exactN()
+	s.boundedRead()
 }
 
 // entryViolation: first mutating effect or non-error return reachable from the
@@ -950,4 +954,155 @@ func reachableOnlyViaFailure(f *ssa.Function, cl *ssa.Call, hit ssa.Instruction,
 	}
 	// tested only through Any(e, …): then the pruned search already excluded the leaving side
 	return true
+}
+
+// exactN (A8): "a copy of n bytes transfers exactly n or reports an error". For every exported safeio function
+// with an int64 parameter named n and a (count, error) result, n must be the count handed to io.CopyN — the
+// only standard copy that turns a short source into io.EOF — or be compared with the transferred count.
+// Handing n to io.LimitReader / LimitedReader alone bounds the copy from above but accepts a short source.
+func (s *c09State) exactN() {
+	c := s.c
+	for _, f := range c.srcFuncs("safeio") {
+		if f.Parent() != nil || f.Object() == nil || !f.Object().Exported() || !strings.Contains(f.Name(), "CopyN") {
+			continue
+		}
+		var n *ssa.Parameter
+		for _, p := range f.Params {
+			if b, ok := p.Type().Underlying().(*types.Basic); ok && b.Kind() == types.Int64 {
+				n = p
+			}
+		}
+		if n == nil {
+			continue
+		}
+		c.FuncsSeen[fname(f)] = true
+		fns := []*ssa.Function{f}
+		var addAnon func(g *ssa.Function)
+		addAnon = func(g *ssa.Function) {
+			for _, a := range g.AnonFuncs {
+				fns = append(fns, a)
+				addAnon(a)
+			}
+		}
+		addAnon(f)
+		isN := func(v ssa.Value) bool { return resolveValue(v) == ssa.Value(n) }
+		good, how := false, ""
+		for _, g := range fns {
+			allInstrs(g, func(in ssa.Instruction) {
+				switch x := in.(type) {
+				case *ssa.Call:
+					if calleeFull(&x.Call) == "io.CopyN" && len(x.Call.Args) == 3 && isN(x.Call.Args[2]) {
+						good, how = true, "n is the count of io.CopyN at "+c.ipos(in)
+					}
+				case *ssa.BinOp:
+					switch x.Op {
+					case token.EQL, token.NEQ, token.LSS, token.GTR, token.LEQ, token.GEQ:
+						if isN(x.X) != isN(x.Y) {
+							good, how = true, "the transferred count is compared with n at "+c.ipos(in)
+						}
+					}
+				}
+			})
+		}
+		c.check(good, "A8", fname(f)+"/exactly-n", c.pos(f.Pos()), how,
+			"n neither reaches io.CopyN nor is compared with the number of bytes transferred: when the source ends before n bytes the copy reports success with fewer than n bytes (io.LimitReader bounds from above only)")
+	}
+}
+
+// boundedRead (A9): "a bounded read returns at most the requested maximum". In every exported safeio function
+// with an io.Reader parameter and an int64 parameter named max, every use of the raw reader is the operand of
+// io.LimitReader(src, max), or sits on the side of a test of max against 0 where max is negative.
+func (s *c09State) boundedRead() {
+	c := s.c
+	for _, f := range c.srcFuncs("safeio") {
+		if f.Parent() != nil || f.Object() == nil || !f.Object().Exported() {
+			continue
+		}
+		var max, src *ssa.Parameter
+		for _, p := range f.Params {
+			if b, ok := p.Type().Underlying().(*types.Basic); ok && b.Kind() == types.Int64 && p.Name() == "max" {
+				max = p
+			}
+			if strings.HasSuffix(p.Type().String(), "io.Reader") {
+				src = p
+			}
+		}
+		if max == nil || src == nil || src.Referrers() == nil {
+			continue
+		}
+		c.FuncsSeen[fname(f)] = true
+		// negSucc: for an If on max, the successor index taken when max < 0 (-1: not a recognised test of max)
+		negSucc := func(ifi *ssa.If) int {
+			v, ts := boolTest(ifi)
+			b, ok := v.(*ssa.BinOp)
+			if !ok || resolveValue(b.X) != ssa.Value(max) {
+				return -1
+			}
+			if k, isC := constInt(b.Y); !isC || k != 0 {
+				return -1
+			}
+			switch b.Op {
+			case token.LSS:
+				return ts
+			case token.GEQ:
+				return 1 - ts
+			}
+			return -1
+		}
+		onNegSide := func(blk *ssa.BasicBlock) bool {
+			for _, b := range f.Blocks {
+				if len(b.Instrs) == 0 {
+					continue
+				}
+				if ifi, ok := b.Instrs[len(b.Instrs)-1].(*ssa.If); ok {
+					if k := negSucc(ifi); k >= 0 && edgeDominates(b, k, blk) {
+						return true
+					}
+				}
+			}
+			return false
+		}
+		limited, bad := 0, ""
+		for _, r := range *src.Referrers() {
+			switch x := r.(type) {
+			case *ssa.DebugRef:
+				continue
+			case *ssa.Call:
+				if calleeFull(&x.Call) == "io.LimitReader" && len(x.Call.Args) == 2 && x.Call.Args[0] == ssa.Value(src) && resolveValue(x.Call.Args[1]) == ssa.Value(max) {
+					limited++
+					continue
+				}
+				if !onNegSide(x.Block()) {
+					bad = "the raw source is handed to " + calleeFull(&x.Call) + " at " + c.ipos(x) + " where max may be non-negative"
+				}
+			case *ssa.Phi:
+				for i, e := range x.Edges {
+					if e != ssa.Value(src) {
+						continue
+					}
+					p := x.Block().Preds[i]
+					okEdge := onNegSide(p)
+					if !okEdge && len(p.Instrs) > 0 {
+						if ifi, isIf := p.Instrs[len(p.Instrs)-1].(*ssa.If); isIf {
+							if k := negSucc(ifi); k >= 0 && p.Succs[k] == x.Block() && p.Succs[1-k] != x.Block() {
+								okEdge = true
+							}
+						}
+					}
+					if !okEdge {
+						bad = "the raw source becomes the reader at " + c.pos(x.Pos()) + " on a path where max may be non-negative"
+					}
+				}
+			default:
+				if in, ok := r.(ssa.Instruction); ok && !onNegSide(in.Block()) {
+					bad = "the raw source is used at " + c.ipos(in) + " where max may be non-negative"
+				}
+			}
+		}
+		if bad == "" && limited == 0 {
+			bad = "max never reaches io.LimitReader over the source"
+		}
+		c.check(bad == "", "A9", fname(f)+"/at-most-max", c.pos(f.Pos()),
+			"the source is read through io.LimitReader(src, max) unless max < 0", bad+": more than max bytes can be returned")
+	}
 }
